@@ -180,6 +180,7 @@ fn finish(
         let _ = h.join();
     }
     sched().set_mode(Mode::Off); // the clean-up stop is not part of the behaviour
+    let t0 = Instant::now();
     let stopper = std::thread::spawn(move || {
         store.stop();
     });
@@ -188,6 +189,9 @@ fn finish(
             return "hung";
         }
         std::thread::sleep(Duration::from_millis(1));
+    }
+    if t0.elapsed() >= Duration::from_millis(2500) {
+        return "slowstop"; // the clean-up stop() ran into its internal timeout
     }
     "clean"
 }
